@@ -19,7 +19,7 @@ RULE = (
     "swap-adjacent / replace by a token of another class, 1-3 edits); (c) syntactically valid but "
     "out-of-domain literals (float ids, string/float/negative enum values, unknown or ill-arity "
     "parameters, empty enum, u0/u99, huge numbers, wrong version); (d) random ASCII / unicode / control "
-    "text and the empty string; (e) type nesting to depth 200; (f) the same faults inside imported "
+    "text and the empty string; (e) type / value nesting to depth 5000 (far beyond the interpreter's recursion limit); (f) the same faults inside imported "
     "module files.  Monitors: exception escape (any BaseException), result type (Ok/Err), "
     "Logger.error(err) must render, every [file.fcp:line] citation must name a registered source and "
     "an existing line and the quoted source text must be that line; every third input is parsed and "
@@ -27,7 +27,7 @@ RULE = (
     "(input class, outcome, normalised first error message)."
 )
 ASSUMPTIONS = [
-    "nesting is bounded at 200 (deeper input exercises CPython's recursion limit, not fcp)",
+    "nesting is bounded at 5000 levels (a 15 KB input)",
     "self-importing modules are outside the quantifier",
     "citations of python source files ([parser.py:NNN]) are implementation locations, only .fcp citations are judged",
 ]
@@ -269,7 +269,7 @@ def run(run):
             for v in VERSIONS:
                 t = v + "\nstruct A { a @0: u8, }"
                 judge(run, "version", string_parse(t), t)
-            for depth in (10, 40, 100, 200):
+            for depth in (10, 40, 100, 200, 300, 400, 1000, 5000):
                 for opener, closer in (("[", "]"), ("Optional[", "]"), ("[", ", 2]")):
                     t = 'version: "3"\nstruct A { a @0: ' + opener * depth + "u8" + closer * depth + ", }"
                     judge(run, "deep", string_parse(t), t)
